@@ -83,8 +83,8 @@ def _big(a):
 
 def _pretty_req(r):
     return {"feerate": _big(r["feerate"]), "to_broadcaster": _big(r["to_b"]), "to_countersigner": _big(r["to_c"]),
-            "offered": [[_big(h["v"]), _big(h["cltv"])] for h in r["off"]],
-            "received": [[_big(h["v"]), _big(h["cltv"])] for h in r["rcv"]]}
+            "offered": [[_big(h["v"]), _big(h["cltv"]), "hash#%s" % h.get("h", i)] for i, h in enumerate(r["off"])],
+            "received": [[_big(h["v"]), _big(h["cltv"]), "hash#%s" % h.get("h", i)] for i, h in enumerate(r["rcv"])]}
 
 
 def _pretty(c):
@@ -98,7 +98,10 @@ def _pretty(c):
             "setup": {"type": c["setup"]["ctype"], "outbound": c["setup"]["outbound"],
                       "value": _big(c["setup"]["value"]), "push_msat": _big(c["setup"]["push_msat"]),
                       "delays": [c["setup"]["hdelay"], c["setup"]["cdelay"]]},
-            "chain": c["chain"], "request": _pretty_req(c["req"]), "obs": c.get("obs")}
+            "chain": c["chain"], "request": _pretty_req(c["req"]),
+            "sequence": ({"first_request": _pretty_req(c["seq"]["req1"]), "advance": c["seq"].get("adv", False),
+                          "chain_before_request": c["seq"]["chain2"]} if c.get("kind") == "seq" else None),
+            "obs": c.get("obs")}
 
 
 def _stats(logf):
@@ -258,7 +261,9 @@ def run(pid, tier):
         "evaluations": n, "distinct_nontrivial": nontrivial,
         "rule": "cases are enumerated by TLC from MC_CommitPolicy.tla (every family of single-field mutations of a "
                 "good commitment at bound-1/bound/bound+1, typical values and u64/u32 extremes, pairs, every filter "
-                "shape around the rules a case breaks); a case counts as distinct by the SHA-256 of the concrete "
+                "shape around the rules a case breaks, request sequences: the same number again after the chain "
+                "changed, two successive commitments with an HTLC carried over / another part with the same payment "
+                "hash added while the fee rate or the chain height moves); a case counts as distinct by the SHA-256 of the concrete "
                 "(policy, setup, chain, side, n, request) that was run and as non-trivial when its request (or "
                 "setup_channel for setup cases) actually reached the real entry point",
         "samples": samples or [{"note": "no sample"}],
@@ -267,7 +272,8 @@ def run(pid, tier):
         "model_only_counterexamples": a["model_violations"] if not violations else 0,
         "switches": SWITCHES,
         "explanation": "TLC (a) enumerates the case matrix of CommitPolicy.tla, choosing every concrete number, and "
-                       "model-checks the life cycle stub->ready->opened->chained->done of every case on the "
+                       "model-checks the life cycle stub->ready->opened->chained[->pending[->advanced]->chained2]"
+                       "->done of every case on the "
                        "code-shaped model; (b) after the harness ran every case through the real setup_channel / "
                        "sign_counterparty_commitment_tx_phase2 / validate_holder_commitment_tx_phase2, replays the "
                        "recorded life cycles: every observed step is compared with the model (divergences) and the "
